@@ -246,3 +246,37 @@ pub fn sweep(part: &str, shards: usize, hang_timeout: Duration, extra_env: &[(St
     crashes.dedup_by_key(|c| c.index);
     SweepResult { chunks, crashes }
 }
+
+/// Reads the lines a child process prints, handing each to `on_line` (which returns `false` to stop), until the
+/// child closes its output or stays silent for longer than `silence` - then it is killed. A "locate" re-walk of
+/// a block whose worker HUNG must not hang the check in turn: the last line announced before the silence names
+/// the case.
+pub fn lines_until_silent(child: &mut std::process::Child, silence: Duration, mut on_line: impl FnMut(&str) -> bool) {
+    use std::io::{BufRead, BufReader};
+    let out = match child.stdout.take() {
+        Some(o) => o,
+        None => return,
+    };
+    let (tx, rx) = mpsc::channel::<String>();
+    std::thread::spawn(move || {
+        for l in BufReader::new(out).lines().map_while(Result::ok) {
+            if tx.send(l).is_err() {
+                break;
+            }
+        }
+    });
+    loop {
+        match rx.recv_timeout(silence) {
+            Ok(l) => {
+                if !on_line(&l) {
+                    break;
+                }
+            }
+            Err(mpsc::RecvTimeoutError::Timeout) => {
+                let _ = child.kill();
+                break;
+            }
+            Err(mpsc::RecvTimeoutError::Disconnected) => break,
+        }
+    }
+}
